@@ -58,6 +58,13 @@ func (d *dialer) Dial() (_ transport.Pipe, err error) {
 	return d.hs.Wait()
 }
 
+// Close gives up a connection attempt that is still waiting for the peer's
+// handshake; the dialer cannot be used afterwards.
+func (d *dialer) Close() error {
+	d.hs.Close()
+	return nil
+}
+
 func (d *dialer) SetOption(n string, v interface{}) error {
 	d.lock.Lock()
 	defer d.lock.Unlock()
